@@ -88,24 +88,56 @@ func c02Frames() []model.Frame {
 		derived("d", "q", "q", N, "p", "p", "\u017fr"),
 		ints("id", 0, 1, 2, 3, 4, 5),
 	}}
-	// 70 rows (one block of 64 plus a tail) drawn from the rows of f4 and f0 in a mixed order
-	f5 := model.Frame{N: 70}
-	for ci, c4 := range f4.Cols {
-		c0 := f0.Cols[ci]
-		nc := model.Col{Name: c4.Name, Kind: c4.Kind, EnumVals: c4.EnumVals}
-		for r := 0; r < 70; r++ {
-			switch {
-			case c4.Name == "id":
-				nc.Cells = append(nc.Cells, model.I(r))
-			case r%3 != 0:
-				nc.Cells = append(nc.Cells, c4.Cells[(r*5)%6])
-			default:
-				nc.Cells = append(nc.Cells, c0.Cells[r%5])
+	// larger frames (row counts around the block sizes a kernel might use), rows drawn from f4 and f0 in a
+	// mixed order; the LAST rows are always among the interesting ones
+	mixed := func(n int) model.Frame {
+		g := model.Frame{N: n}
+		for ci, c4 := range f4.Cols {
+			c0 := f0.Cols[ci]
+			nc := model.Col{Name: c4.Name, Kind: c4.Kind, EnumVals: c4.EnumVals}
+			for r := 0; r < n; r++ {
+				switch {
+				case c4.Name == "id":
+					nc.Cells = append(nc.Cells, model.I(r))
+				case (n-1-r)%3 != 2:
+					nc.Cells = append(nc.Cells, c4.Cells[((n-1-r)*5)%6])
+				default:
+					nc.Cells = append(nc.Cells, c0.Cells[(n-1-r)%5])
+				}
 			}
+			g.Cols = append(g.Cols, nc)
 		}
-		f5.Cols = append(f5.Cols, nc)
+		return g
 	}
-	return []model.Frame{f0, f1, f2, f3, f4, f5}
+	frames := []model.Frame{f0, f1, f2, f3, f4}
+	for _, n := range []int{70, 8, 15, 16, 17, 32, 33, 64, 128, 129} {
+		frames = append(frames, mixed(n))
+	}
+	return append(frames, c02BigEnumFrame())
+}
+
+// c02BigEnumFrame (always the LAST frame; used by its own layer only): two enum columns of one
+// type with 200 declared values, every value present, so that enum codes beyond 127 take part in
+// ordering comparisons.
+func c02BigEnumFrame() model.Frame {
+	const n = 200
+	vals := make([]string, n)
+	for i := range vals {
+		vals[i] = fmt.Sprintf("v%03d", (i*73)%n) // declared order is not alphabetical
+	}
+	e := model.Col{Name: "e", Kind: model.Enum, EnumVals: vals}
+	e2 := model.Col{Name: "e2", Kind: model.Enum, EnumVals: vals}
+	id := model.Col{Name: "id", Kind: model.Int}
+	for r := 0; r < n; r++ {
+		e.Cells = append(e.Cells, model.S(vals[(r*37)%n]))
+		if r%17 == 5 {
+			e2.Cells = append(e2.Cells, model.Null())
+		} else {
+			e2.Cells = append(e2.Cells, model.S(vals[(r*91+3)%n]))
+		}
+		id.Cells = append(id.Cells, model.I(r))
+	}
+	return model.Frame{N: n, Cols: []model.Col{e, e2, id}}
 }
 
 func lf(col, cmp, kind string) model.Leaf { return model.Leaf{Col: col, Cmp: cmp, ArgKind: kind} }
@@ -527,7 +559,7 @@ func c02Run(ctx *core.Ctx) {
 	}
 	// tier A: every leaf alone, under Not, in single-element And/Or, on every frame and shape
 	leaves := c02Leaves()
-	for fi := range env.frames {
+	for fi := 0; fi < len(env.frames)-1; fi++ {
 		for _, l := range leaves {
 			variants := []model.Clause{model.LeafC(l), model.Not(model.LeafC(l)), model.And(model.LeafC(l)), model.Or(model.LeafC(l)),
 				model.Not(model.Not(model.LeafC(l))), model.Or(model.LeafC(l), model.LeafC(l)), model.And(model.NullClause(), model.LeafC(l))}
@@ -537,6 +569,40 @@ func c02Run(ctx *core.Ctx) {
 						continue
 					}
 					exec(filterCase{FrameID: fi, Shape: s, Clause: v})
+				}
+			}
+		}
+	}
+	// big-enum layer: ordering and equality against constants at ranks around 127/128 and against the other column
+	{
+		bf := len(env.frames) - 1
+		vals := env.frames[bf].Cols[0].EnumVals
+		var bl []model.Leaf
+		for _, cmp := range []string{"<", "<=", ">", ">=", "=", "!="} {
+			for _, rank := range []int{0, 5, 126, 127, 128, 129, 150, 199} {
+				for _, inv := range []bool{false, true} {
+					l := lf("e", cmp, "string")
+					l.S = vals[rank]
+					l.Inverse = inv
+					bl = append(bl, l)
+				}
+			}
+			for _, inv := range []bool{false, true} {
+				l := lf("e", cmp, "col")
+				l.ArgCol = "e2"
+				l.Inverse = inv
+				bl = append(bl, l)
+			}
+		}
+		in := lf("e", "in", "strings")
+		in.List = []model.Cell{model.S(vals[127]), model.S(vals[128]), model.S(vals[199])}
+		bl = append(bl, in)
+		for _, l := range bl {
+			for _, v := range []model.Clause{model.LeafC(l), model.Not(model.LeafC(l))} {
+				for sh := 0; sh < model.NShapes; sh++ {
+					if ctx.Mine() {
+						exec(filterCase{FrameID: bf, Shape: sh, Clause: v})
+					}
 				}
 			}
 		}
@@ -589,7 +655,7 @@ func init() {
 		ID:    "C02",
 		Setup: func() { c02Env_() },
 		Level: "model_checking",
-		Rule: "case = (frame, index shape, clause tree). Tier A: every leaf of the ~600-leaf alphabet (all comparators x argument kinds x Inverse, per column type) alone and in 7 wrappers on 6 frames (0-6 rows, and one of 70 rows) x 7 shapes; " +
+		Rule: "case = (frame, index shape, clause tree). Tier A: every leaf of the ~600-leaf alphabet (all comparators x argument kinds x Inverse, per column type) alone and in 7 wrappers on 15 frames (five of 0-6 rows, ten of 8..129 rows around multiples of 8/16/64) x 8 shapes; " +
 			"A2: every ordered pair of leaves under And/Or/Or(Not); B: every And/Or/Not tree with <=K leaf slots and bounded depth, every assignment of core leaves to the slots. " +
 			"Non-trivial = the clause keeps some but not all rows according to the model; distinct by (frame, clause text).",
 		Assumptions: []string{
